@@ -108,6 +108,7 @@ CHECKS = {
     },
     "C11": {
         "legs": legs_simple("props", "^TestC11$", 14, 16),
+        "needs_cli": True,
         "rule": "rapid TOML documents (empty, unrelated sections incl. other lint names / global sections / nested tables, well-typed options for the configurable lints discovered at "
                 "run time, ill-typed shapes: scalar / array / array-of-tables / wrong field type / table for a scalar) x home objects of those lints, built CRLs, other corpus objects; "
                 "rapid state machine over registries (SetConfiguration / Filter incl. aliasing / lint) against a model of which configuration each registry holds; the example "
@@ -142,6 +143,7 @@ CHECKS = {
     },
     "C16": {
         "legs": legs_simple("props", "^TestC16$", 14, 16),
+        "needs_cli": True,
         "rule": "enumerated: every divisor 2..769 times a 1031-bit prime, bit lengths {1,2,8,512,1023..1025,2040,2047..2049,2056,3071..3073,4096} x exponents {1,2,3,4,65535..65538,2^31-1,2^62+1} "
                 "(a quarter of the base/threshold/exponent grid per seed), genuinely self-signed roots built from 10 committed keys of 1023..4096 bits; rapid: moduli near thresholds, "
                 "uniform 2..4200 bits, multiples of 8 +-1, even, primes around 752 x prime, products of two primes; exponents incl. 2^63-1; Fermat: products of primes whose distance is "
